@@ -37,3 +37,15 @@ package v1alpha1
 //@        && result.Status.StartTime == in.Status.StartTime && result.Status.CreatedTasks == in.Status.CreatedTasks && result.Status.RunningTasks == in.Status.RunningTasks
 //@        && result.Status.ParallelStatus == in.Status.ParallelStatus
 //@   ensures in != nil ==> len(result.Status.Tasks) == len(in.Status.Tasks) && (forall i int :: 0 <= i && i < len(in.Status.Tasks) ==> result.Status.Tasks[i] == in.Status.Tasks[i])
+
+//@ pure Job.GetMaxAttempts(j *Job) int64 = (j.Spec.Template != nil && j.Spec.Template.MaxAttempts != nil) ? *j.Spec.Template.MaxAttempts : 1
+//@ func Job.GetMaxAttempts
+//@   requires j != nil
+//@   ensures [C08,C10] result == j.GetMaxAttempts()
+
+//@ pure retryDelaySeconds(j *Job) Int = (j.Spec.Template != nil && j.Spec.Template.RetryDelaySeconds != nil) ? *j.Spec.Template.RetryDelaySeconds : 0
+//@ func Job.GetRetryDelay
+//@   tags C08
+//@   safety overflow, nil
+//@   requires j != nil
+//@   ensures [C08] retry-delay-value: result == retryDelaySeconds(j) * 1000000000
